@@ -18,7 +18,7 @@ import traceback
 VERIF = os.path.dirname(os.path.dirname(os.path.abspath(__file__)))
 NSHARDS_DEFAULT = 16
 SHRINK_BUDGET = {"quick": 45.0, "thorough": 180.0}
-SHARD_TIMEOUT = {"quick": 1500, "thorough": 4 * 3600}
+SHARD_TIMEOUT = {"quick": 600, "thorough": 3 * 3600}
 
 
 class ViolationFound(Exception):
